@@ -8,7 +8,7 @@ Open Scope Z_scope.
 (* the keep build and the plain build on the same message: same outcome, same end position, and the decoded values
    differ only by the retained chunks *)
 Theorem keep_known_unchanged : forall S p k T tv,
-  wf_schema S = true -> no_keep_arg S = true -> p <> PCompact ->
+  wf_schema S = true -> arg_free S T tv = true -> p <> PCompact ->
   wt tv = true -> ttype_of tv = ttype_of_ty S T ->
   evo_dom S T tv = true -> no_retyped_variant S T tv = true -> unions_single S T tv = true ->
   forall c, w_pend c = None ->
@@ -22,7 +22,7 @@ Theorem keep_known_unchanged : forall S p k T tv,
       end.
 Proof.
   intros S p k T tv Hwf Hnka Hbin Hwt Hty Hd Hn Hu c Hc.
-  destruct (keep_decode S p k T tv Hnka Hbin Hwt Hty Hd Hn c Hc) as (ss & Hw & Hk).
+  destruct (keep_decode S p k T tv Hbin Hwt Hty Hd Hn Hnka c Hc) as (ss & Hw & Hk).
   destruct (evo_tolerant S p k T tv Hwt Hty Hd Hn c Hc) as (ss' & Hw' & Hv).
   rewrite Hw in Hw'. injection Hw' as <-.
   exists ss. split; [exact Hw|]. intros fuel r rcx Hf Hi.
@@ -41,7 +41,7 @@ Qed.
 
 (* decode with retention, re-encode, read back with the self-describing reader: the whole trip *)
 Theorem keep_retain_trip : forall S p k T tv g,
-  wf_schema S = true -> no_keep_arg S = true -> p <> PCompact ->
+  wf_schema S = true -> arg_free S T tv = true -> p <> PCompact ->
   wt tv = true -> ttype_of tv = ttype_of_ty S T ->
   evo_dom S T tv = true -> no_retyped_variant S T tv = true ->
   forall c, w_pend c = None ->
@@ -58,7 +58,7 @@ Theorem keep_retain_trip : forall S p k T tv g,
 Proof.
   intros S p k T tv g Hwf Hnka Hbin Hwt Hty Hd Hn c Hc Hv Hee.
   pose proof (reenc_wt S tv T Hwf Hwt Hty Hd Hn Hee) as Hwr.
-  destruct (keep_decode S p k T tv Hnka Hbin Hwt Hty Hd Hn c Hc) as (ss & Hw & Hk).
+  destruct (keep_decode S p k T tv Hbin Hwt Hty Hd Hn Hnka c Hc) as (ss & Hw & Hk).
   destruct (keep_retain S p k c T tv g Hwf Hbin Hc Hn Hv Hwr) as (b & He & Hr).
   exists ss, b. split; [exact Hw|]. split.
   { intros fuel r rcx Hf Hi. rewrite (Hk fuel r rcx Hf Hi), Hv. reflexivity. }
